@@ -70,9 +70,10 @@ CLAIMS = {
         ref='DESIGN 6 C12'),
     'C15': dict(
         text='Deductive proof (Verus) of the real text of Instance::as_minimization_problem (minimise: untouched; maximise: sense := minimise, objective := negation, everything else framed; result always a minimisation problem - hence idempotent; ranking lemma) '
-             'and of the feasibility-table selection used by best_feasible*: SampleSet::feasible_relaxed / feasible_unrelaxed (legacy-field fallbacks for messages of older releases) and SampledValues::get.',
-        note=A1 + 'ASSUMED callee contract: Neg for Function (value negated up to an explicit epsilon-drop remainder). NOT covered: SampleSet::best / best_feasible* / feasible_ids (iterator chains with min_by/total_cmp closures) - the selection half of the property is only decided for its table lookups. Precondition (observation): a present objective has its oneof set.',
-        technique='contract-based deductive verification (Verus) of mechanically extracted Rust functions',
+             'and of the whole best-feasible selection: SampleSet::feasible_relaxed / feasible_unrelaxed (legacy-field fallbacks for messages of older releases), feasible_ids / feasible_unrelaxed_ids (exactly the ids whose table entry is true), SampledValues::get (value of the first entry listing the id), SampleSet::objectives, '
+             'SampleSet::best (the result is a candidate; for finite objectives no candidate beats it under the sense of the set; it fails exactly when there is no candidate, for a well-formed set) and best_feasible_id / best_feasible_unrelaxed_id (the returned sample is feasible in the requested sense, unbeaten among the feasible ones, Err exactly when none is feasible).',
+        note=A1 + 'ASSUMED callee contracts: Neg for Function (value negated up to an explicit epsilon-drop remainder); std helpers Iterator::min_by (stated over the comparator closure: a least element for every transitive relation the comparator refines), f64::total_cmp (agrees with the strict order on finite values; nothing claimed for equal reals such as -0.0/+0.0), HashMap::iter().filter_map().collect(), BTreeSet::into_iter. NOT covered: best_feasible / best_feasible_unrelaxed assemble the Solution through SampleSet::get (C06 territory): bounded stand-in only. An unspecified sense code is treated like maximise by the code (observation). Precondition (observation): a present objective has its oneof set.',
+        technique='contract-based deductive verification (Verus) of mechanically extracted Rust functions; closure contracts by ordinal; higher-order helper contract for min_by',
         ref='DESIGN 6 C15'),
     'C09': dict(
         text='Deductive proof (Verus) of the real text of Instance::penalty_method and uniform_penalty_method: no active constraint remains; the removed list is the old removed list followed by every active constraint, unchanged; '
